@@ -294,14 +294,37 @@ def order_pass(args):
 
 
 def _lin(x, a, b):
-    return a + b * x
+    # in double precision whatever the type of x (list of ints, int64 / float32 array): the value of a
+    # dependent parameter must not depend on the dtype of the conditioning value either
+    return a + b * np.asarray(x, dtype=float)
+
+
+GIVEN_KINDS = {
+    "int64 array": (np.array([1, 2, 3, 2], dtype=np.int64), np.array([1.0, 2.0, 3.0, 2.0])),
+    "list of int": ([1, 2, 3, 2], np.array([1.0, 2.0, 3.0, 2.0])),
+    "float32 array": (np.array([1.5, 2.25, 3.0, 2.25], dtype=np.float32), np.array([1.5, 2.25, 3.0, 2.25])),
+}
+
+
+def dtype_ok(cond):
+    """pdf / cdf / icdf / seeded draw_sample with the conditioning values as int64 array, list of python
+    ints and float32 array give bit for bit the numbers of the same values as float64 array; returns
+    the first deviating call ('' if none)"""
+    for kind, (g, g64) in GIVEN_KINDS.items():
+        for meth in ("pdf", "cdf", "icdf"):
+            x = np.array((D.P_BODY if meth == "icdf" else D.X_BODY)[:4])
+            if not D.compare(getattr(cond, meth)(x, g), getattr(cond, meth)(x, g64))[0]:
+                return f"{meth}(x, given={kind})"
+        if not D.compare(cond.draw_sample(3, g, random_state=77), cond.draw_sample(3, g64, random_state=77))[0]:
+            return f"draw_sample(3, given={kind})"
+    return ""
 
 
 def condfix_record(vc, rid, case, seed=0):
     fam, F = case["fam"], list(case["F"])
     names = D.NAMES[fam]
     dep = [n for n in names if n not in F]
-    rec = dict(id=rid, kind="condfix", fam=fam, F=F, exc="", preok=False, postok=False, defsame=False, fitdev=BIG,
+    rec = dict(id=rid, kind="condfix", fam=fam, F=F, exc="", preok=False, postok=False, defsame=False, dtypeok=False, dtypebad="", fitdev=BIG,
                nint=0, ngiven=0)
     rng = np.random.default_rng([seed, 77, sum(map(ord, fam + "".join(F)))])
     givens = [0.7, 1.9, 3.2, np.array([0.7, 1.9, 3.2, 1.9]), np.array([2.5]),
@@ -331,6 +354,7 @@ def condfix_record(vc, rid, case, seed=0):
             cond = vc.distributions.ConditionalDistribution(tmpl, deps)
             rec["ngiven"] = len(givens)
             rec["preok"] = fixed_ok(cond)
+            rec["dtypebad"] = dtype_ok(cond)
             # fit: three intervals of own-family data whose free parameters drift with the given
             cvals = [1.0, 2.0, 3.0]
             intervals = []
@@ -365,6 +389,8 @@ def condfix_record(vc, rid, case, seed=0):
             rec["nint"] = len(cond.distributions_per_interval)
             rec["fitdev"] = Qc(worst, 1e15, 0, BIG)
             rec["postok"] = fixed_ok(cond)
+            rec["dtypebad"] = rec["dtypebad"] or dtype_ok(cond)
+            rec["dtypeok"] = rec["dtypebad"] == ""
         except Exception as e:  # noqa
             rec["exc"] = f"{type(e).__name__}: {e}"[:200]
     return rec
@@ -427,7 +453,8 @@ def judge(ctx, vc, fcases, ccases, summary=True, reps=1):
         ctx.case("condfix " + condfix_key(c), nontrivial=r["exc"] == "")
         for clause in failing.get(r["id"], []):
             ctx.violation(clause, condfix_key(c),
-                          f"exc={r['exc']!r} preok={r['preok']} postok={r['postok']} fitdev={r['fitdev']}e-15",
+                          f"exc={r['exc']!r} preok={r['preok']} postok={r['postok']} fitdev={r['fitdev']}e-15 "
+                          f"defsame={r['defsame']} first call that depends on the dtype of given: {r['dtypebad']!r}",
                           replay=dict(kind="condfix", case=c))
     if summary and failing.get(allrecs[-1]["id"]):
         raise Machinery(f"coverage clauses rejected: {failing[allrecs[-1]['id']]}")
@@ -454,6 +481,7 @@ def selftest(ctx, frec, crec):
             (frec, "FreeEstimated", dict(free1changed=False)),
             (frec, "CaseOrderIndependent", dict(ordsame=False)),
             (crec, "FixedSameForAllGiven", dict(postok=False)),
+            (crec, "FixedSameForAllGiven", dict(dtypeok=False)),
             (crec, "DefaultFitMethod", dict(defsame=False)),
             (crec, "FixedStableInIntervals", dict(fitdev=5000))):
         r = copy.deepcopy(base)
